@@ -263,9 +263,10 @@ Section Proofs.
     I_ldone : forall d, In d (g_ldone g) ->
               exists h t r, nth_error (g_hist g) (d_id d) = Some h /\ h_ret h = Some (t, r) /\
                 (d_slot d <= length (g_log g))%nat /\
-                shortcut (exec (firstn (d_slot d) (g_log g))) (h_op h) = Some r /\
+                step (exec (firstn (d_slot d) (g_log g))) (h_op h) = (exec (firstn (d_slot d) (g_log g)), r) /\
                 (forall p c, nth_error (g_log g) p = Some c -> (p < d_slot d)%nat -> c_time c < t) /\
-                (forall p c, nth_error (g_log g) p = Some c -> (d_slot d <= p)%nat -> h_inv h < c_time c);
+                (d_read d = false ->
+                 forall p c, nth_error (g_log g) p = Some c -> (d_slot d <= p)%nat -> h_inv h < c_time c);
     I_lorder : forall i j d1 d2 h1 h2 t1 r1 t2 r2, (i < j)%nat ->
                nth_error (g_ldone g) i = Some d1 -> nth_error (g_ldone g) j = Some d2 ->
                nth_error (g_hist g) (d_id d1) = Some h1 -> h_ret h1 = Some (t1, r1) ->
@@ -354,9 +355,10 @@ Section Proofs.
     Lemma snoc_ldone : forall d, In d (g_ldone g) ->
       exists h t r, nth_error hist' (d_id d) = Some h /\ h_ret h = Some (t, r) /\
         (d_slot d <= length (g_log g))%nat /\
-        shortcut (exec (firstn (d_slot d) (g_log g))) (h_op h) = Some r /\
+        step (exec (firstn (d_slot d) (g_log g))) (h_op h) = (exec (firstn (d_slot d) (g_log g)), r) /\
         (forall p c, nth_error (g_log g) p = Some c -> (p < d_slot d)%nat -> c_time c < t) /\
-        (forall p c, nth_error (g_log g) p = Some c -> (d_slot d <= p)%nat -> h_inv h < c_time c).
+        (d_read d = false ->
+         forall p c, nth_error (g_log g) p = Some c -> (d_slot d <= p)%nat -> h_inv h < c_time c).
     Proof.
       intros d Hd. destruct (I_ldone g Hi d Hd) as [h [t [r [Hh Rest]]]]. exists h, t, r. split; auto using snoc_old.
     Qed.
@@ -526,7 +528,7 @@ Section Proofs.
       exists h, t, r. split; [exact Hh|]. split; [exact Hr|]. split; [rewrite app_length; simpl; lia|].
       split; [rewrite firstn_snoc_le by exact Hs; exact Hsc|]. split.
       + intros p c Hpc Hlt. apply nth_error_snoc in Hpc. destruct Hpc as [[_ Hpc]|[Hp _]]; [eapply Hb; eauto|lia].
-      + intros p c Hpc Hle. apply nth_error_snoc in Hpc. destruct Hpc as [[_ Hpc]|[_ ->]]; [eapply Ha; eauto|].
+      + intros Hrd p c Hpc Hle. apply nth_error_snoc in Hpc. destruct Hpc as [[_ Hpc]|[_ ->]]; [eapply (Ha Hrd); eauto|].
         simpl. apply (T1 _ _ Hh).
     - exact LO1.
   Qed.
@@ -701,7 +703,7 @@ Section Proofs.
     shortcut (r_st (g_rep g (l_rep q))) (h_op h) = Some res ->
     Inv (mkG (N.succ (g_clock g)) (set_ret (l_id q) (g_clock g, res) (g_hist g))
              (g_inflight g) (g_log g) (g_rep g)
-             (l1 ++ l2) (g_ldone g ++ [mkD (l_id q) (r_applied (g_rep g (l_rep q)))])).
+             (l1 ++ l2) (g_ldone g ++ [mkD (l_id q) (r_applied (g_rep g (l_rep q))) false])).
   Proof.
     intros g l1 q l2 h res Hi Heq Hci Hh Hsc. pose proof Hi as Hi0.
     destruct Hi as [N1 L1 H1 T1 C1 M1 A1 D1 R1 P1 O1 W1 LD1 LO1].
@@ -712,7 +714,7 @@ Section Proofs.
     set (h' := mkHop (h_op h) (h_inv h) (Some (g_clock g, res))).
     assert (Hnew : nth_error hist' id = Some h') by (apply set_ret_same; exact Hh).
     assert (Hperm : Permutation (all_ids g)
-              (all_ids (mkG (N.succ (g_clock g)) hist' (g_inflight g) (g_log g) (g_rep g) (l1 ++ l2) (g_ldone g ++ [mkD id k])))).
+              (all_ids (mkG (N.succ (g_clock g)) hist' (g_inflight g) (g_log g) (g_rep g) (l1 ++ l2) (g_ldone g ++ [mkD id k false])))).
     { unfold all_ids, ids_of; simpl. rewrite Heq. rewrite !map_app. simpl. apply Permutation_app_head.
       rewrite <- !app_assoc. apply Permutation_app_head. simpl. fold id.
       rewrite (app_assoc (map l_id l2)). apply Permutation_cons_append. }
@@ -766,12 +768,12 @@ Section Proofs.
       + destruct (LD1 d Hd) as [x [t [rr [Hx Rest]]]]. exists x, t, rr. split; [|exact Rest].
         apply Lk2; [exact Hx|apply Hid_ld; exact Hd].
       + simpl. exists h', (g_clock g), res. split; [exact Hnew|]. split; [reflexivity|]. split; [exact Rk|].
-        split; [simpl; rewrite <- Rst; exact Hsc|]. split.
+        split; [simpl; rewrite <- Rst; apply shortcut_step; exact Hsc|]. split.
         * intros p c0 Hc0 _. apply (C1 _ _ Hc0).
-        * intros p c0 Hc0 Hle. simpl. apply (Hafter p c0 Hc0). lia.
+        * intros _ p c0 Hc0 Hle. simpl. apply (Hafter p c0 Hc0). lia.
     - intros i j d1 d2 h1 h2 t1 r1 t2 r2 Hlt Hd1 Hd2 Hh1 Hr1 Hh2 Hr2.
       assert (Hi_old : (i < length (g_ldone g))%nat).
-      { assert (j < length (g_ldone g ++ [mkD id k]))%nat by (apply nth_error_Some; congruence).
+      { assert (j < length (g_ldone g ++ [mkD id k false]))%nat by (apply nth_error_Some; congruence).
         rewrite app_length in H. simpl in H. lia. }
       rewrite nth_error_app1 in Hd1 by exact Hi_old.
       assert (E1 : nth_error (g_hist g) (d_id d1) = Some h1).
@@ -784,6 +786,71 @@ Section Proofs.
         exact (LO1 i j d1 d2 h1 h2 t1 r1 t2 r2 Hlt Hd1 Hd2 E1 Hr1 E2 Hr2).
       + simpl in Hh2. rewrite Hnew in Hh2. inversion Hh2; subst h2. simpl in Hr2. inversion Hr2; subst t2 r2.
         destruct (T1 _ _ E1) as [_ Tb]. destruct (Tb _ _ Hr1). assumption.
+  Qed.
+
+  Lemma nonmut_step : forall s o, mutating o = false -> step s o = (s, snd (step s o)).
+  Proof. intros s o H. destruct o; try discriminate; reflexivity. Qed.
+
+  Lemma Inv_read : forall g r o, Inv g -> mutating o = false ->
+    Inv (mkG (N.succ (N.succ (g_clock g)))
+             (g_hist g ++ [mkHop o (g_clock g) (Some (N.succ (g_clock g), snd (step (r_st (g_rep g r)) o)))])
+             (g_inflight g) (g_log g) (g_rep g) (g_wait g)
+             (g_ldone g ++ [mkD (length (g_hist g)) (r_applied (g_rep g r)) true])).
+  Proof.
+    intros g r o Hi Hmut. pose proof Hi as Hi0. pose proof (ids_lt g Hi) as Hlt.
+    destruct Hi as [N1 L1 H1 T1 C1 M1 A1 D1 R1 P1 O1 W1 LD1 LO1].
+    set (rec := mkHop o (g_clock g) (Some (N.succ (g_clock g), snd (step (r_st (g_rep g r)) o)))).
+    set (id := length (g_hist g)). set (k := r_applied (g_rep g r)).
+    assert (Hold : forall i h, nth_error (g_hist g) i = Some h -> nth_error (g_hist g ++ [rec]) i = Some h)
+      by (intros; apply nth_error_snoc_old; assumption).
+    assert (Hnew : nth_error (g_hist g ++ [rec]) id = Some rec)
+      by (unfold id; rewrite nth_error_app2 by lia; rewrite Nat.sub_diag; reflexivity).
+    assert (Hperm : Permutation (id :: all_ids g)
+              (all_ids (mkG (N.succ (N.succ (g_clock g))) (g_hist g ++ [rec]) (g_inflight g) (g_log g) (g_rep g) (g_wait g)
+                            (g_ldone g ++ [mkD id k true])))).
+    { unfold all_ids; simpl. rewrite map_app. simpl. rewrite !app_assoc. apply Permutation_cons_append. }
+    destruct (R1 r) as [Rk Rst]. fold k in Rk, Rst.
+    constructor; simpl; fold rec id k.
+    - eapply Permutation_NoDup; [exact Hperm|]. constructor; [|exact N1]. intros Hin. apply L1 in Hin. unfold id in Hin. lia.
+    - intros i Hin. rewrite app_length; simpl. apply (Permutation_in _ (Permutation_sym Hperm)) in Hin.
+      destruct Hin as [<-|Hin]; [unfold id; lia|]. specialize (L1 i Hin). lia.
+    - intros e He. destruct (H1 e He) as [h [Hh Ho]]. exists h. split; auto.
+    - intros i h Hh. apply nth_error_snoc in Hh. destruct Hh as [[_ Hh]|[_ ->]].
+      + destruct (T1 i h Hh) as [Ta Tb]. split; [lia|]. intros t rr Hr. destruct (Tb t rr Hr). split; lia.
+      + unfold rec; simpl. split; [lia|]. intros t rr Hr. inversion Hr; subst. split; lia.
+    - intros p c Hc. specialize (C1 p c Hc). lia.
+    - exact M1.
+    - intros p c h Hc Hh. apply nth_error_snoc in Hh. destruct Hh as [[_ Hh]|[Heq _]]; [eapply A1; eauto|].
+      exfalso. assert (cid c < length (g_hist g))%nat; [|lia]. apply Hlt. unfold ids_of. apply in_or_app. left.
+      apply in_map. eapply nth_error_In; eauto.
+    - intros i h t rr Hh Hr. apply nth_error_snoc in Hh. destruct Hh as [[_ Hh]|[-> _]].
+      + destruct (D1 _ _ _ _ Hh Hr) as [Hl|Hl]; [left; exact Hl|right]. rewrite map_app. apply in_or_app; left; exact Hl.
+      + right. rewrite map_app. apply in_or_app; right. left; reflexivity.
+    - exact R1.
+    - intros r0 id0 Hin. destruct (P1 r0 id0 Hin) as [h [Hh Hr]]. exists h; auto.
+    - exact O1.
+    - intros q Hq. destruct (W1 q Hq) as [[h [Hh [Hr Hc]]] [Hci Hp]]. split; [|split; auto]. exists h. split; auto.
+    - intros d Hd. apply in_app_or in Hd. destruct Hd as [Hd|[<-|[]]].
+      + destruct (LD1 d Hd) as [h [t [rr [Hh Rest]]]]. exists h, t, rr. split; auto.
+      + simpl. exists rec, (N.succ (g_clock g)), (snd (step (r_st (g_rep g r)) o)). split; [exact Hnew|].
+        split; [reflexivity|]. split; [exact Rk|]. split; [simpl; rewrite <- Rst; apply nonmut_step; exact Hmut|]. split.
+        * intros p c0 Hc0 _. specialize (C1 _ _ Hc0). lia.
+        * discriminate.
+    - intros i j d1 d2 h1 h2 t1 r1 t2 r2 Hlt' Hd1 Hd2 Hh1 Hr1 Hh2 Hr2.
+      assert (Hi_old : (i < length (g_ldone g))%nat).
+      { assert (j < length (g_ldone g ++ [mkD id k true]))%nat by (apply nth_error_Some; congruence).
+        rewrite app_length in H. simpl in H. lia. }
+      rewrite nth_error_app1 in Hd1 by exact Hi_old.
+      assert (Hid1 : (d_id d1 < length (g_hist g))%nat).
+      { apply L1. unfold all_ids. apply in_or_app; right. apply in_or_app; right. apply in_map. eapply nth_error_In; eauto. }
+      rewrite nth_error_app1 in Hh1 by exact Hid1.
+      apply nth_error_snoc in Hd2. destruct Hd2 as [[_ Hd2]|[_ ->]].
+      + assert (Hid2 : (d_id d2 < length (g_hist g))%nat).
+        { apply L1. unfold all_ids. apply in_or_app; right. apply in_or_app; right. apply in_map. eapply nth_error_In; eauto. }
+        rewrite nth_error_app1 in Hh2 by exact Hid2.
+        exact (LO1 i j d1 d2 h1 h2 t1 r1 t2 r2 Hlt' Hd1 Hd2 Hh1 Hr1 Hh2 Hr2).
+      + simpl in Hh2. rewrite Hnew in Hh2. inversion Hh2; subst h2. simpl in Hr2. inversion Hr2; subst t2 r2.
+        destruct (T1 _ _ Hh1) as [_ Tb]. destruct (Tb _ _ Hr1). lia.
   Qed.
 
   Lemma Inv_step : forall g g', Inv g -> pstep g g' -> Inv g'.
@@ -799,6 +866,7 @@ Section Proofs.
       destruct (I_rep g Hi r) as [Ra _]. lia.
     - apply Inv_barrier; exact Hi.
     - eapply Inv_local; eauto.
+    - apply Inv_read; assumption.
     - eapply Inv_fallback; eauto.
   Qed.
 
@@ -844,26 +912,99 @@ Section Proofs.
           right; right; right. exists d. repeat split; auto; lia.
   Qed.
 
+  Lemma nth_error_relax : forall rd h s i x', nth_error (relax_from s rd h) i = Some x' ->
+    exists x, nth_error h i = Some x /\ h_op x' = h_op x /\ h_ret x' = h_ret x /\
+              (existsb (Nat.eqb (s + i)) rd = false -> x' = x) /\
+              (existsb (Nat.eqb (s + i)) rd = true -> h_inv x' = 0).
+  Proof.
+    induction h as [|a h IH]; intros s i x' H; simpl in H; [destruct i; discriminate|].
+    destruct i as [|i]; simpl in H.
+    - inversion H; subst. exists a. rewrite Nat.add_0_r. destruct (existsb (Nat.eqb s) rd); simpl; repeat split; auto; discriminate.
+    - destruct (IH (S s) i x' H) as [x [A [B [C [D E]]]]]. exists x. replace (s + S i)%nat with (S s + i)%nat by lia. auto.
+  Qed.
+
+  Lemma nth_error_relax_some : forall rd h s i x, nth_error h i = Some x -> exists x', nth_error (relax_from s rd h) i = Some x'.
+  Proof.
+    induction h as [|a h IH]; intros s i x H; [destruct i; discriminate|]. destruct i as [|i]; simpl in *.
+    - eexists; reflexivity.
+    - eapply IH; eauto.
+  Qed.
+
   Section Witness.
     Variable g : gstate.
     Hypothesis Hi : Inv g.
     Let hist := g_hist g.
+    Let rhist := relaxed_hist g.
     Let log := g_log g.
     Let ld := g_ldone g.
+    Let is_read (i : nat) : bool := existsb (Nat.eqb i) (read_ids g).
 
-    (* "b may come after a" on request ids *)
+    (* "b may come after a" on request ids, in the history whose plain reads may take effect early *)
     Definition Rt (a b : nat) : Prop :=
-      forall ha hb, nth_error hist a = Some ha -> nth_error hist b = Some hb -> precedes hb ha = false.
+      forall ha hb, nth_error rhist a = Some ha -> nth_error rhist b = Some hb -> precedes hb ha = false.
+
+    Lemma rlookup : forall i h', nth_error rhist i = Some h' ->
+      exists h, nth_error hist i = Some h /\ h_op h' = h_op h /\ h_ret h' = h_ret h /\
+                (is_read i = false -> h' = h) /\ (is_read i = true -> h_inv h' = 0).
+    Proof. intros i h' H. apply (nth_error_relax (read_ids g) hist 0 i h' H). Qed.
+
+    Lemma is_read_ld : forall d, In d ld -> is_read (d_id d) = d_read d.
+    Proof.
+      intros d Hd. unfold is_read, read_ids.
+      assert (Hnd : NoDup (map d_id ld)).
+      { pose proof (I_nodup g Hi) as N. unfold all_ids in N. apply NoDup_app_r in N. apply NoDup_app_r in N. exact N. }
+      destruct (d_read d) eqn:E.
+      - apply existsb_exists. exists (d_id d). split; [|apply Nat.eqb_refl]. apply in_map. apply filter_In. auto.
+      - destruct (existsb (Nat.eqb (d_id d)) (map d_id (filter d_read (g_ldone g)))) eqn:Ex; [|reflexivity].
+        apply existsb_exists in Ex. destruct Ex as [i [Hi' He]]. apply Nat.eqb_eq in He. subst i.
+        apply in_map_iff in Hi'. destruct Hi' as [d' [Hid Hf]]. apply filter_In in Hf. destruct Hf as [Hin' Hr'].
+        assert (d' = d).
+        { clear - Hnd Hin' Hd Hid. fold ld in Hin'. induction ld as [|x l IH]; [contradiction|]. simpl in Hnd.
+          inversion Hnd as [|? ? Hnotin Hnd']; subst.
+          destruct Hin' as [<-|G1]; destruct Hd as [<-|G2]; auto.
+          - exfalso. apply Hnotin. rewrite Hid. apply in_map; exact G2.
+          - exfalso. apply Hnotin. rewrite <- Hid. apply in_map; exact G1. }
+        subst d'. congruence.
+    Qed.
+
+    Lemma is_read_log : forall p c, nth_error log p = Some c -> is_read (cid c) = false.
+    Proof.
+      intros p c Hc. unfold is_read, read_ids. destruct (existsb (Nat.eqb (cid c)) (map d_id (filter d_read (g_ldone g)))) eqn:Ex; [|reflexivity].
+      apply existsb_exists in Ex. destruct Ex as [i [Hi' He]]. apply Nat.eqb_eq in He. subst i.
+      apply in_map_iff in Hi'. destruct Hi' as [d [Hid Hf]]. apply filter_In in Hf. destruct Hf as [Hin' _].
+      destruct (log_id_not_local g Hi _ _ Hc) as [_ NL]. exfalso. exact (NL d Hin' Hid).
+    Qed.
+
+    (* a log entry's record is untouched by the relaxation *)
+    Lemma rlookup_log : forall p c h', nth_error log p = Some c -> nth_error rhist (cid c) = Some h' -> nth_error hist (cid c) = Some h'.
+    Proof.
+      intros p c h' Hc Hh. destruct (rlookup _ _ Hh) as [h [Hh0 [_ [_ [Hsame _]]]]]. rewrite (Hsame (is_read_log _ _ Hc)). exact Hh0.
+    Qed.
 
     Lemma ld_facts : forall d, In d ld ->
       exists h t r, nth_error hist (d_id d) = Some h /\ h_ret h = Some (t, r) /\ h_inv h < t /\
         (d_slot d <= length log)%nat /\
-        shortcut (exec (firstn (d_slot d) log)) (h_op h) = Some r /\
+        step (exec (firstn (d_slot d) log)) (h_op h) = (exec (firstn (d_slot d) log), r) /\
         (forall p c, nth_error log p = Some c -> (p < d_slot d)%nat -> c_time c < t) /\
-        (forall p c, nth_error log p = Some c -> (d_slot d <= p)%nat -> h_inv h < c_time c).
+        (d_read d = false -> forall p c, nth_error log p = Some c -> (d_slot d <= p)%nat -> h_inv h < c_time c).
     Proof.
       intros d Hd. destruct (I_ldone g Hi d Hd) as [h [t [r [Hh [Hr [Hs [Hsc [Hb Ha]]]]]]]].
-      exists h, t, r. repeat split; auto. destruct (I_time g Hi _ _ Hh) as [_ Tb]. apply (Tb _ _ Hr).
+      exists h, t, r. split; [exact Hh|]. split; [exact Hr|]. split; [destruct (I_time g Hi _ _ Hh) as [_ Tb]; apply (Tb _ _ Hr)|].
+      split; [exact Hs|]. split; [exact Hsc|]. split; [exact Hb|exact Ha].
+    Qed.
+
+    (* the relaxed record of a locally answered request: same reply; invoked at 0 if it is a plain read *)
+    Lemma ld_rfacts : forall d h', In d ld -> nth_error rhist (d_id d) = Some h' ->
+      exists h t r, nth_error hist (d_id d) = Some h /\ h_ret h' = Some (t, r) /\ h_ret h = Some (t, r) /\ h_inv h < t /\
+        (d_read d = true -> h_inv h' = 0) /\ (d_read d = false -> h' = h) /\
+        (forall p c, nth_error log p = Some c -> (p < d_slot d)%nat -> c_time c < t) /\
+        (d_read d = false -> forall p c, nth_error log p = Some c -> (d_slot d <= p)%nat -> h_inv h < c_time c).
+    Proof.
+      intros d h' Hd Hh'. destruct (ld_facts d Hd) as [h [t [r [Hh [Hr [Hit [_ [_ [Hb Ha]]]]]]]]].
+      destruct (rlookup _ _ Hh') as [h0 [Hh0 [_ [Hret [Hsame Hzero]]]]]. unfold hist in *. rewrite Hh in Hh0. inversion Hh0; subst h0.
+      rewrite (is_read_ld d Hd) in Hsame, Hzero.
+      exists h, t, r. split; [exact Hh|]. split; [rewrite Hret; exact Hr|]. split; [exact Hr|]. split; [exact Hit|].
+      split; [exact Hzero|]. split; [exact Hsame|]. split; [exact Hb|exact Ha].
     Qed.
 
     (* a completed request that is in the log was committed before its reply *)
@@ -879,43 +1020,50 @@ Section Proofs.
 
     Lemma rt_log_log : forall p q c d, (p < q)%nat -> nth_error log p = Some c -> nth_error log q = Some d -> Rt (cid c) (cid d).
     Proof.
-      intros p q c d Hlt Hc Hd ha hb Ha Hb. unfold precedes. destruct (h_ret hb) as [[t r]|] eqn:Er; [|reflexivity].
+      intros p q c d Hlt Hc Hd ha hb Ha Hb. apply (rlookup_log _ _ _ Hc) in Ha. apply (rlookup_log _ _ _ Hd) in Hb.
+      unfold precedes. destruct (h_ret hb) as [[t r]|] eqn:Er; [|reflexivity].
       apply N.ltb_ge. destruct (logged_reply _ _ _ _ _ Hd Hb Er) as [Ht _].
       pose proof (I_after g Hi _ _ _ Hc Ha). pose proof (I_mono g Hi _ _ _ _ Hlt Hc Hd). lia.
     Qed.
 
     Lemma rt_loc_log : forall d p c, In d ld -> (d_slot d <= p)%nat -> nth_error log p = Some c -> Rt (d_id d) (cid c).
     Proof.
-      intros d p c Hd Hle Hc ha hb Ha Hb. unfold precedes. destruct (h_ret hb) as [[t r]|] eqn:Er; [|reflexivity].
+      intros d p c Hd Hle Hc ha hb Ha Hb. apply (rlookup_log _ _ _ Hc) in Hb.
+      unfold precedes. destruct (h_ret hb) as [[t r]|] eqn:Er; [|reflexivity].
       apply N.ltb_ge. destruct (logged_reply _ _ _ _ _ Hc Hb Er) as [Ht _].
-      destruct (ld_facts d Hd) as [h [t' [r' [Hh [_ [_ [_ [_ [_ Haft]]]]]]]]]. rewrite Ha in Hh. inversion Hh; subst h.
-      pose proof (Haft p c Hc Hle). lia.
+      destruct (ld_rfacts d ha Hd Ha) as [h [t' [r' [_ [_ [_ [_ [Hz [Hs [_ Haft]]]]]]]]]].
+      destruct (d_read d) eqn:Erd.
+      - rewrite (Hz eq_refl). lia.
+      - rewrite (Hs eq_refl). pose proof (Haft eq_refl p c Hc Hle). lia.
     Qed.
 
     Lemma rt_log_loc : forall p c d, nth_error log p = Some c -> In d ld -> (p < d_slot d)%nat -> Rt (cid c) (d_id d).
     Proof.
-      intros p c d Hc Hd Hlt ha hb Ha Hb. unfold precedes.
-      destruct (ld_facts d Hd) as [h [t [r [Hh [Hr [_ [_ [_ [Hbef _]]]]]]]]]. rewrite Hb in Hh. inversion Hh; subst h.
-      rewrite Hr. apply N.ltb_ge. pose proof (Hbef p c Hc Hlt). pose proof (I_after g Hi _ _ _ Hc Ha). lia.
+      intros p c d Hc Hd Hlt ha hb Ha Hb. apply (rlookup_log _ _ _ Hc) in Ha. unfold precedes.
+      destruct (ld_rfacts d hb Hd Hb) as [h [t [r [_ [Hr' [_ [_ [_ [_ [Hbef _]]]]]]]]]].
+      rewrite Hr'. apply N.ltb_ge. pose proof (Hbef p c Hc Hlt). pose proof (I_after g Hi _ _ _ Hc Ha). lia.
     Qed.
 
     Lemma rt_loc_loc_lt : forall d1 d2, In d1 ld -> In d2 ld -> (d_slot d1 < d_slot d2)%nat -> Rt (d_id d1) (d_id d2).
     Proof.
       intros d1 d2 H1 H2 Hlt ha hb Ha Hb. unfold precedes.
-      destruct (ld_facts d1 H1) as [h1 [t1 [r1 [Hh1 [_ [_ [_ [_ [_ Haft1]]]]]]]]]. rewrite Ha in Hh1. inversion Hh1; subst h1.
-      destruct (ld_facts d2 H2) as [h2 [t2 [r2 [Hh2 [Hr2 [_ [Hs2 [_ [Hbef2 _]]]]]]]]]. rewrite Hb in Hh2. inversion Hh2; subst h2.
+      destruct (ld_rfacts d1 ha H1 Ha) as [h1 [t1 [r1 [_ [_ [_ [_ [Hz1 [Hs1 [_ Haft1]]]]]]]]]].
+      destruct (ld_rfacts d2 hb H2 Hb) as [h2 [t2 [r2 [_ [Hr2 [_ [_ [_ [_ [Hbef2 _]]]]]]]]]].
       rewrite Hr2. apply N.ltb_ge.
+      destruct (d_read d1) eqn:Erd; [rewrite (Hz1 eq_refl); lia|]. rewrite (Hs1 eq_refl).
+      destruct (ld_facts d2 H2) as [_ [_ [_ [_ [_ [_ [Hs2 _]]]]]]].
       destruct (nth_error log (d_slot d1)) as [c|] eqn:Ec.
-      - pose proof (Haft1 _ c Ec (Nat.le_refl _)). pose proof (Hbef2 _ c Ec Hlt). lia.
+      - pose proof (Haft1 eq_refl _ c Ec (Nat.le_refl _)). pose proof (Hbef2 _ c Ec Hlt). lia.
       - apply nth_error_None in Ec. lia.
     Qed.
 
     Lemma rt_ldone_ordered : pairwise (fun d1 d2 => Rt (d_id d1) (d_id d2)) ld.
     Proof.
       apply pairwise_of_nth. intros i j d1 d2 Hlt H1 H2 ha hb Ha Hb. unfold precedes.
-      destruct (ld_facts d1 (nth_error_In _ _ H1)) as [h1 [t1 [r1 [Hh1 [Hr1 [Hit1 _]]]]]]. rewrite Ha in Hh1. inversion Hh1; subst h1.
-      destruct (ld_facts d2 (nth_error_In _ _ H2)) as [h2 [t2 [r2 [Hh2 [Hr2 _]]]]]. rewrite Hb in Hh2. inversion Hh2; subst h2.
-      rewrite Hr2. apply N.ltb_ge. pose proof (I_lorder g Hi _ _ _ _ _ _ _ _ _ _ Hlt H1 H2 Ha Hr1 Hb Hr2). lia.
+      destruct (ld_rfacts d1 ha (nth_error_In _ _ H1) Ha) as [h1 [t1 [r1 [Hh1 [_ [Hr1 [Hit1 [Hz1 [Hs1 _]]]]]]]]].
+      destruct (ld_rfacts d2 hb (nth_error_In _ _ H2) Hb) as [h2 [t2 [r2 [Hh2 [Hr2' [Hr2 _]]]]]].
+      rewrite Hr2'. apply N.ltb_ge. pose proof (I_lorder g Hi _ _ _ _ _ _ _ _ _ _ Hlt H1 H2 Hh1 Hr1 Hh2 Hr2).
+      destruct (d_read d1) eqn:Erd; [rewrite (Hz1 eq_refl); lia|rewrite (Hs1 eq_refl); lia].
     Qed.
 
     Lemma rest_pos : forall pre c rest c', log = pre ++ c :: rest -> In c' rest ->
@@ -994,17 +1142,18 @@ Section Proofs.
     Qed.
 
     Lemma locs_noops : forall k ops, (k <= length log)%nat ->
-      Forall2 (fun i h => nth_error hist i = Some h) (locs_at ld k) ops ->
+      Forall2 (fun i h => nth_error rhist i = Some h) (locs_at ld k) ops ->
       Forall (fun h => exists r, step (exec (firstn k log)) (h_op h) = (exec (firstn k log), r) /\ reply_ok h r = true) ops.
     Proof.
       intros k ops Hk Hf. apply Forall_forall. intros h Hh.
       destruct (Forall2_in_r _ _ _ _ _ _ Hf Hh) as [i [Hin Hih]]. apply in_locs_at in Hin. destruct Hin as [d [Hd [<- Hs]]].
-      destruct (ld_facts d Hd) as [h' [t [r [Hh' [Hr [_ [_ [Hsc _]]]]]]]]. rewrite Hih in Hh'. inversion Hh'; subst h'.
-      exists r. rewrite Hs in Hsc. split; [apply shortcut_step; exact Hsc|]. unfold reply_ok. rewrite Hr. apply res_eqb_refl.
+      destruct (ld_facts d Hd) as [h0 [t [r [Hh0 [Hr [_ [_ [Hsc _]]]]]]]].
+      destruct (rlookup _ _ Hih) as [h1 [Hh1 [Hop [Hret _]]]]. unfold hist in *. rewrite Hh0 in Hh1. inversion Hh1; subst h1.
+      exists r. rewrite Hs in Hsc. rewrite Hop. split; [exact Hsc|]. unfold reply_ok. rewrite Hret, Hr. apply res_eqb_refl.
     Qed.
 
     Lemma legal_wit : forall rest pre ops, log = pre ++ rest ->
-      Forall2 (fun i h => nth_error hist i = Some h) (wit ld rest (length pre)) ops -> legal (exec pre) ops.
+      Forall2 (fun i h => nth_error rhist i = Some h) (wit ld rest (length pre)) ops -> legal (exec pre) ops.
     Proof.
       induction rest as [|c rest IH]; intros pre ops Hlog Hf; simpl in Hf.
       - assert (Hfp : firstn (length pre) log = pre) by (rewrite Hlog, app_nil_r; apply firstn_all).
@@ -1019,7 +1168,7 @@ Section Proofs.
         apply legal_noops.
         + assert (Hk : (length pre <= length log)%nat) by (rewrite Hlog, app_length; simpl; lia).
           pose proof (locs_noops (length pre) ops1 Hk Hf1) as X. rewrite Hfp in X. exact X.
-        + inversion Hf2 as [|i h l l' Hh Hf3]; subst. simpl.
+        + inversion Hf2 as [|i h l l' Hh Hf3]; subst. simpl. apply (rlookup_log _ _ _ Hc) in Hh.
           assert (Hop : h_op h = e_op (c_ent c)).
           { destruct (I_hist g Hi (c_ent c)) as [h0 [Hh0 Ho]].
             - apply in_or_app; left. apply in_map. eapply nth_error_In; eauto.
@@ -1033,33 +1182,50 @@ Section Proofs.
     Qed.
   End Witness.
 
-  Theorem Inv_linearizable : forall g, Inv g -> linearizable (g_hist g).
+  (* the history in which every plain read may take effect before its invocation is linearizable *)
+  Theorem Inv_linearizable_relaxed : forall g, Inv g -> linearizable (relaxed_hist g).
   Proof.
     intros g Hi. set (W := wit (g_ldone g) (g_log g) 0).
-    assert (HW : forall i, In i W -> exists h, nth_error (g_hist g) i = Some h).
-    { intros i Hin. assert (i < length (g_hist g))%nat; [|destruct (nth_error (g_hist g) i) eqn:E; [eauto|apply nth_error_None in E; lia]].
-      apply (I_lt g Hi). unfold all_ids, ids_of. apply in_wit in Hin. destruct Hin as [[c [Hc <-]]|[d [Hd [<- _]]]].
-      - apply in_or_app; left. apply in_or_app; left. apply in_map; exact Hc.
-      - apply in_or_app; right. apply in_or_app; right. apply in_map; exact Hd. }
-    destruct (Forall2_exists _ _ (fun i h => nth_error (g_hist g) i = Some h) W HW) as [ops Hops].
+    assert (HW : forall i, In i W -> exists h, nth_error (relaxed_hist g) i = Some h).
+    { intros i Hin. assert (i < length (g_hist g))%nat.
+      { apply (I_lt g Hi). unfold all_ids, ids_of. apply in_wit in Hin. destruct Hin as [[c [Hc <-]]|[d [Hd [<- _]]]].
+        - apply in_or_app; left. apply in_or_app; left. apply in_map; exact Hc.
+        - apply in_or_app; right. apply in_or_app; right. apply in_map; exact Hd. }
+      destruct (nth_error (g_hist g) i) as [x|] eqn:E; [|apply nth_error_None in E; lia].
+      apply (nth_error_relax_some (read_ids g) (g_hist g) 0 i x E). }
+    destruct (Forall2_exists _ _ (fun i h => nth_error (relaxed_hist g) i = Some h) W HW) as [ops Hops].
     exists W, ops. split; [|split; [|split; [|split]]].
     - apply (wit_NoDup g Hi (g_log g) []). reflexivity.
     - exact Hops.
-    - intros i o Hn Hc. unfold completed in Hc. destruct (h_ret o) as [[t r]|] eqn:Er; [|discriminate].
-      apply in_wit. destruct (I_done g Hi _ _ _ _ Hn Er) as [[p [c [Hp [Hid _]]]]|Hl].
+    - intros i o Hn Hc. destruct (rlookup g _ _ Hn) as [h [Hh [_ [Hret _]]]].
+      unfold completed in Hc. rewrite Hret in Hc. destruct (h_ret h) as [[t r]|] eqn:Er; [|discriminate].
+      apply in_wit. destruct (I_done g Hi _ _ _ _ Hh Er) as [[p [c [Hp [Hid _]]]]|Hl].
       + left. exists c. split; [eapply nth_error_In; eauto|exact Hid].
       + right. apply in_map_iff in Hl. destruct Hl as [d [Hd Hin]]. exists d. split; [exact Hin|]. split; [exact Hd|].
         destruct (I_ldone g Hi d Hin) as [_ [_ [_ [_ [_ [Hs _]]]]]]. simpl. lia.
     - apply rt_ok_pairwise.
-      apply (pairwise_Forall2 _ _ (fun i h => nth_error (g_hist g) i = Some h) (Rt g) (fun a b => precedes b a = false) W ops).
+      apply (pairwise_Forall2 _ _ (fun i h => nth_error (relaxed_hist g) i = Some h) (Rt g) (fun a b => precedes b a = false) W ops).
       + intros a a' b b' Ha Ha' HR. apply HR; auto.
       + exact Hops.
       + apply (wit_pairwise g Hi (g_log g) []). reflexivity.
     - apply (legal_wit g Hi (g_log g) [] ops); [reflexivity|exact Hops].
   Qed.
 
-  (* every history of the protocol is linearizable *)
-  Theorem protocol_linearizable : forall g, reachable g -> linearizable (g_hist g).
+  Lemma relax_nil : forall h s, relax_from s [] h = h.
+  Proof. induction h as [|x h IH]; intros s; simpl; [reflexivity|]. rewrite IH. reflexivity. Qed.
+
+  (* without plain reads the relaxed history is the history *)
+  Theorem Inv_linearizable : forall g, Inv g -> read_ids g = [] -> linearizable (g_hist g).
+  Proof.
+    intros g Hi Hr. pose proof (Inv_linearizable_relaxed g Hi) as H. unfold relaxed_hist in H. rewrite Hr, relax_nil in H. exact H.
+  Qed.
+
+  (* every history of the protocol is linearizable once its plain reads may take effect early; without plain
+     reads it is linearizable as it stands *)
+  Theorem protocol_linearizable_relaxed : forall g, reachable g -> linearizable (relaxed_hist g).
+  Proof. intros g H. apply Inv_linearizable_relaxed, reachable_Inv, H. Qed.
+
+  Theorem protocol_linearizable : forall g, reachable g -> read_ids g = [] -> linearizable (g_hist g).
   Proof. intros g H. apply Inv_linearizable, reachable_Inv, H. Qed.
 
   (* the commit point: an acknowledged request is EITHER in the log exactly once, at a position whose commit
@@ -1073,10 +1239,10 @@ Section Proofs.
                  h_inv h < c_time c /\ c_time c < t /\
                  r = snd (step (exec (firstn p (g_log g))) (h_op h)) /\
                  (forall q d, nth_error (g_log g) q = Some d -> cid d = i -> q = p)) \/
-    (exists k, (k <= length (g_log g))%nat /\ h_inv h < t /\
+    (exists k rd, (k <= length (g_log g))%nat /\ h_inv h < t /\
                step (exec (firstn k (g_log g))) (h_op h) = (exec (firstn k (g_log g)), r) /\
                (forall p c, nth_error (g_log g) p = Some c -> (p < k)%nat -> c_time c < t) /\
-               (forall p c, nth_error (g_log g) p = Some c -> (k <= p)%nat -> h_inv h < c_time c) /\
+               (rd = false -> forall p c, nth_error (g_log g) p = Some c -> (k <= p)%nat -> h_inv h < c_time c) /\
                (forall p c, nth_error (g_log g) p = Some c -> cid c <> i)).
   Proof.
     intros g Hi i h t r Hh Hret.
@@ -1088,9 +1254,8 @@ Section Proofs.
     - right. apply in_map_iff in Hl. destruct Hl as [d [Hd Hin]]. subst i.
       destruct (ld_facts g Hi d Hin) as [h' [t' [r' [Hh' [Hr' [Hit [Hs [Hsc [Hb Ha]]]]]]]]].
       rewrite Hh in Hh'. inversion Hh'; subst h'. rewrite Hret in Hr'. inversion Hr'; subst t' r'.
-      exists (d_slot d). repeat split; auto.
-      + apply shortcut_step; exact Hsc.
-      + intros p c Hc He. destruct (log_id_not_local g Hi _ _ Hc) as [_ NL]. apply (NL d Hin). symmetry; exact He.
+      exists (d_slot d), (d_read d). repeat split; auto.
+      intros p c Hc He. destruct (log_id_not_local g Hi _ _ Hc) as [_ NL]. apply (NL d Hin). symmetry; exact He.
   Qed.
 
   Definition commit_point_stmt (g : gstate) : Prop :=
@@ -1099,10 +1264,10 @@ Section Proofs.
                  h_inv h < c_time c /\ c_time c < t /\
                  r = snd (step (exec (firstn p (g_log g))) (h_op h)) /\
                  (forall q d, nth_error (g_log g) q = Some d -> cid d = i -> q = p)) \/
-    (exists k, (k <= length (g_log g))%nat /\ h_inv h < t /\
+    (exists k rd, (k <= length (g_log g))%nat /\ h_inv h < t /\
                step (exec (firstn k (g_log g))) (h_op h) = (exec (firstn k (g_log g)), r) /\
                (forall p c, nth_error (g_log g) p = Some c -> (p < k)%nat -> c_time c < t) /\
-               (forall p c, nth_error (g_log g) p = Some c -> (k <= p)%nat -> h_inv h < c_time c) /\
+               (rd = false -> forall p c, nth_error (g_log g) p = Some c -> (k <= p)%nat -> h_inv h < c_time c) /\
                (forall p c, nth_error (g_log g) p = Some c -> cid c <> i)).
 
   Theorem protocol_commit_point : forall g, reachable g -> commit_point_stmt g.
@@ -1123,6 +1288,52 @@ Section Proofs.
     intros g Hi. split.
     - intros r1 r2 Heq. destruct (I_rep g Hi r1) as [_ E1]. destruct (I_rep g Hi r2) as [_ E2]. rewrite E1, E2, Heq. reflexivity.
     - intros r Heq. destruct (I_rep g Hi r) as [_ E]. rewrite E, Heq, firstn_all. reflexivity.
+  Qed.
+
+  (* ---------------- what a plain read IS guaranteed (besides relaxed linearizability) ----------------
+     (a) it returns the specification's reply in the state after exactly the log prefix its replica has applied;
+     (b) a replica's applied prefix only grows, except when the replica restarts (from a checkpoint below);
+     (c) an acknowledgement sent by replica r is for an entry inside the prefix r has applied.
+     Hence, between two restarts of r, successive reads through r observe growing prefixes (monotonic reads) and a
+     read through r that follows a write acknowledged by r observes it (read your writes); reads through
+     DIFFERENT replicas, or across a restart, may go back in time (C04_local_read_refuted). *)
+  Theorem read_sees_applied_prefix : forall g r o, reachable g -> mutating o = false ->
+    snd (step (r_st (g_rep g r)) o) = snd (step (exec (firstn (r_applied (g_rep g r)) (g_log g))) o) /\
+    (r_applied (g_rep g r) <= length (g_log g))%nat.
+  Proof.
+    intros g r o Hr _. destruct (I_rep g (reachable_Inv g Hr) r) as [Ha Hs]. rewrite <- Hs. split; [reflexivity|exact Ha].
+  Qed.
+
+  Theorem applied_prefix_grows : forall g g', pstep g g' ->
+    (exists suffix, g_log g' = g_log g ++ suffix) /\
+    forall r, (r_applied (g_rep g r) <= r_applied (g_rep g' r))%nat \/
+              (exists k, (k <= r_applied (g_rep g r))%nat /\ g_rep g' r = mkR k (exec (firstn k (g_log g))) []).
+  Proof.
+    intros g g' Hs. destruct Hs; simpl;
+      (split; [first [exists []; rewrite app_nil_r; reflexivity | eexists; reflexivity]|]);
+      intros r0; unfold upd;
+      try (left; apply Nat.le_refl);
+      try (destruct (Nat.eqb r0 r) eqn:E; simpl; [apply Nat.eqb_eq in E; subst r0|]; try (left; try subst rs; simpl; lia));
+      try (destruct (Nat.eqb r0 (l_rep q)) eqn:E; simpl; [apply Nat.eqb_eq in E; subst r0|]; try (left; try subst rs; simpl; lia)).
+    right. eexists. split; [eassumption|reflexivity].
+  Qed.
+
+  Theorem ack_inside_applied_prefix : forall g r c, reachable g ->
+    nth_error (g_log g) (r_applied (g_rep g r)) = Some c ->
+    let g' := apply1 apply_impl g r in
+    (* the only transition in which replica r acknowledges a logged request: the request is the entry at r's
+       applied index, and afterwards that index is inside r's applied prefix *)
+    r_applied (g_rep g' r) = S (r_applied (g_rep g r)) /\
+    forall i h t res, nth_error (g_hist g) i = Some h -> h_ret h = None ->
+      (exists h', nth_error (g_hist g') i = Some h' /\ h_ret h' = Some (t, res)) ->
+      i = cid c /\ t = g_clock g.
+  Proof.
+    intros g r c Hr Hc g'. unfold g', apply1. rewrite Hc. simpl. rewrite upd_same. simpl. split; [reflexivity|].
+    intros i h t res Hh Hnone [h' [Hh' Hret]].
+    destruct (existsb (Nat.eqb (e_id (c_ent c))) (r_pending (g_rep g r))); [|rewrite Hh in Hh'; inversion Hh'; subst; congruence].
+    destruct (set_ret_lookup _ _ _ _ _ Hh') as [x [Hx [_ [_ [[_ ->]|[-> Hr']]]]]].
+    - rewrite Hh in Hx. inversion Hx; subst. congruence.
+    - rewrite Hret in Hr'. inversion Hr'; subst. split; reflexivity.
   Qed.
 
   Theorem protocol_convergence : forall g, reachable g -> convergence_stmt g.
@@ -1184,7 +1395,7 @@ Definition do_local_head (g : gstate) : gstate :=
           | Some res =>
               if Nat.leb (l_ci q) (r_applied rs) then
                 mkG (N.succ (g_clock g)) (set_ret (l_id q) (g_clock g, res) (g_hist g))
-                    (g_inflight g) (g_log g) (g_rep g) l2 (g_ldone g ++ [mkD (l_id q) (r_applied rs)])
+                    (g_inflight g) (g_log g) (g_rep g) l2 (g_ldone g ++ [mkD (l_id q) (r_applied rs) false])
               else g
           | None => g
           end
@@ -1220,6 +1431,15 @@ Proof.
   eapply reachS; [exact H|]. apply (t_local demo_apply g [] q l2 h res); auto. apply Nat.leb_le; exact El.
 Qed.
 
+Definition do_read (g : gstate) (r : nat) (o : op) : gstate :=
+  mkG (N.succ (N.succ (g_clock g)))
+      (g_hist g ++ [mkHop o (g_clock g) (Some (N.succ (g_clock g), snd (step (r_st (g_rep g r)) o)))])
+      (g_inflight g) (g_log g) (g_rep g) (g_wait g)
+      (g_ldone g ++ [mkD (length (g_hist g)) (r_applied (g_rep g r)) true]).
+
+Lemma do_read_reach : forall g r o, mutating o = false -> reachable demo_apply g -> reachable demo_apply (do_read g r o).
+Proof. intros g r o Hm H. eapply reachS; [exact H|]. apply t_read. exact Hm. Qed.
+
 Ltac demo_reach :=
   repeat first [apply do_apply_reach | apply do_commit_head_reach | apply do_invoke_reach
                | apply do_barrier_reach | apply do_local_head_reach]; apply reach0.
@@ -1252,7 +1472,7 @@ Proof. unfold demo_local. demo_reach. Qed.
 Lemma demo_local_history :
   g_hist demo_local = [mkHop (OLPush 7) 1 (Some (3, RInt 1%Z)); mkHop OLPop 4 (Some (6, RBulk 7%Z));
                        mkHop OLPop 7 (Some (10, RNil))] /\
-  g_ldone demo_local = [mkD 2 2] /\ check (g_hist demo_local) = Lin.
+  g_ldone demo_local = [mkD 2 2 false] /\ check (g_hist demo_local) = Lin.
 Proof. vm_compute. repeat split; reflexivity. Qed.
 
 (* ------------------------------------------------------------------ the tie to node/node_cmd_reg.go (Lin/Consts.v) *)
@@ -1285,15 +1505,20 @@ Inductive reachable_lr : gstate -> Prop :=
             reachable_lr (do_local_unbarriered g r o).
 
 (* INCR through replica 1 is committed, applied and acknowledged by replica 1; replica 0 has not applied
-   it yet and answers GET with nil afterwards *)
+   it yet and answers GET with nil afterwards (t_read): reachable in the protocol AS MODELLED, not linearizable,
+   but linearizable once the read may take effect before its invocation *)
 Definition stale_read_state : gstate :=
-  do_local_unbarriered (do_apply (do_commit_head (do_invoke g0 1 OIncr)) 1) 0 OGet.
+  do_read (do_apply (do_commit_head (do_invoke g0 1 OIncr)) 1) 0 OGet.
 
-Lemma local_read_refuted : reachable_lr stale_read_state /\ ~ linearizable (g_hist stale_read_state).
+Lemma local_read_refuted :
+  reachable demo_apply stale_read_state /\ ~ linearizable (g_hist stale_read_state) /\
+  linearizable (relaxed_hist stale_read_state).
 Proof.
-  split.
-  - unfold stale_read_state. apply lr_read; [|left; reflexivity]. apply lr_base. demo_reach.
+  assert (R : reachable demo_apply stale_read_state).
+  { unfold stale_read_state. apply do_read_reach; [reflexivity|]. demo_reach. }
+  split; [exact R|]. split.
   - apply check_complete. vm_compute. reflexivity.
+  - apply (protocol_linearizable_relaxed demo_apply); [intros; reflexivity|exact R].
 Qed.
 
 (* LPUSH through replica 1 is committed, applied and acknowledged by replica 1; replica 0 has not applied it
